@@ -17,7 +17,7 @@ EXPLANATION = ('The transform routines are run once on a fully symbolic complex 
                'does not depend on the input sample. Cache histories: a call after other calls / clear() / precision changes on the '
                'shared executors must equal the call on a fresh executor.')
 BOUNDS = {'quick': 'mdft: shapes (m,n)->(M,N) in [1..3]^4; czt: m,n,M,N in [1..3] with m*n*M*N<=36; FFT route: shapes [1..4]^2 x Q in {1,2,3,3/2}; histories of length <=3 on 2x3 arrays',
-          'thorough': 'the same shape sets with all four (scalar / per-axis Q) x (zero / symbolic shift) variants, czt kernels up to 54 entries, six larger parity mixes; FFT route [1..5]^2 x Q in {1,5/4,3/2,2,3} (padded size <= 49); histories length 3'}
+          'thorough': 'the quick set, all four (scalar / per-axis Q) x (zero / symbolic shift) variants on shapes up to 2, three larger parity mixes; FFT route [1..5]^2 x Q in {1,5/4,3/2,2,3} (padded size <= 49); histories length 3 (larger sets did not finish in 100 minutes on 16 cores)'}
 OUTSIDE = ('float32/float64 rounding (only which precision the cached bases were built for is tracked); shapes beyond the bound; '
            'for the padded-FFT route with non-integer m*Q the grid is defined by the padded length ceil(m*Q)')
 NDERIVED = 24
@@ -36,7 +36,7 @@ def _shape_sets(tier, engine):
                     for N in range(1, hi + 1):
                         out.append((m, n, M, N))
         if not q:
-            out += [(4, 2, 3, 4), (2, 4, 4, 3), (4, 3, 4, 2), (3, 4, 2, 4), (4, 4, 4, 4), (5, 2, 2, 5)]
+            out += [(4, 2, 3, 4), (2, 4, 4, 3), (3, 4, 2, 4)]
     else:
         hi = 3
         for m in range(1, hi + 1):
@@ -45,7 +45,7 @@ def _shape_sets(tier, engine):
                     for N in range(1, hi + 1):
                         if q and m * n * M * N > 36:
                             continue
-                        if not q and m * n * M * N > 54:
+                        if not q and m * n * M * N > 36:
                             continue
                         out.append((m, n, M, N))
     return out
@@ -58,7 +58,8 @@ def configs(tier):
         shapes = _shape_sets(tier, eng)
         for (m, n, M, N) in shapes:
             for direction in ('fwd', 'inv'):
-                variants = [('Qs', 'zero'), ('Qxy', 'sym')] if q else [('Qs', 'zero'), ('Qxy', 'zero'), ('Qs', 'sym'), ('Qxy', 'sym')]
+                small = max(m, n, M, N) <= 2
+                variants = [('Qs', 'zero'), ('Qxy', 'sym')] if (q or not small) else [('Qs', 'zero'), ('Qxy', 'zero'), ('Qs', 'sym'), ('Qxy', 'sym')]
                 if not q and max(m, n, M, N) >= 4:
                     # sized for about half an hour on 16 cores: the larger shapes get the two extreme variants, and a bounded kernel size
                     if m * n * M * N > 96 and (m, n, M, N) not in ((5, 5, 5, 5), (5, 4, 4, 5), (4, 5, 5, 4), (4, 4, 4, 4)):
@@ -66,7 +67,7 @@ def configs(tier):
                     variants = [('Qs', 'zero'), ('Qxy', 'sym')]
                 # keep the quick tier small: the per-axis/symbolic-shift variant only on a parity-covering subset
                 for qk, sk in variants:
-                    if q and (qk, sk) == ('Qxy', 'sym') and not (max(m, n, M, N) <= 2 or (m, n, M, N) in ((2, 3, 3, 2), (3, 2, 2, 3), (3, 3, 3, 3), (2, 2, 3, 3), (3, 3, 2, 2))):
+                    if (qk, sk) == ('Qxy', 'sym') and not (max(m, n, M, N) <= 2 or (m, n, M, N) in ((2, 3, 3, 2), (3, 2, 2, 3), (3, 3, 3, 3), (2, 2, 3, 3), (3, 3, 2, 2))):
                         continue
                     out.append({'name': '%s-%s-%dx%d-%dx%d-%s-%s' % (eng, direction, m, n, M, N, qk, sk), 'kind': 'kernel',
                                 'engine': eng, 'dir': direction, 'in': [m, n], 'out': [M, N], 'Q': qk, 'shift': sk,
